@@ -12,6 +12,14 @@ xh : the three request validators ``_deserialize_params`` / ``_validate_call_sig
      validators return  <=>  the request's columns equal the declared parameters in number, order,
      name, Arrow type and nullability, every non-optional parameter is non-null and every enum
      value names a member; otherwise an ``Exception`` is raised before the "invoke" marker is set.
+
+     The two directions carry different signatures: ``nonconforming-request-invoked`` is the
+     property statement proper ("invoked only when ..."); ``conforming-request-rejected`` is its
+     converse, kept because "any OTHER request is rejected" makes the conforming ones the served
+     ones (a validator that refuses everything must not pass).  The real replays judge exactly
+     these two facts plus "a rejected request is answered with an error stream" on the real
+     ``RpcServer.serve_one``; a failure of the replay's own set-up, or a conforming request the
+     server fails to answer at all (C04/C05), is no verdict.
 """
 
 from __future__ import annotations
@@ -43,7 +51,8 @@ OUTSIDE = (
     "Arrow type equality itself (field.type != declared.type is C++; types are opaque tokens, so 'compatible widening' == 'different token'); "
     "dataclass / dict / frozenset parameters of _deserialize_value; duplicate column names beyond what the name alphabet produces; "
     "the HTTP 400 vs error-stream mapping of the raised exception and 'the method's own TypeError is not a request error' at the dispatch sites "
-    "(only the order of the validator calls is read from the sites; the sites themselves run in the replay only); _read_request's metadata checks (C05); the real shm / external-location resolvers (contract stubs in (D), real shm in its replay)."
+    "(only the order of the validator calls is read from the sites; the sites themselves run in the replay only); _read_request's metadata checks (C05); the real shm / external-location resolvers (contract stubs in (D), real shm in its replay); "
+    "whether / how often the shm side channel is released or detached (resource hygiene, not C06)."
 )
 ASSUMPTIONS = [
     "kwargs are built from the request columns exactly as _read_request does ({field.name: value}); the request schema reaches the validators through the real context variable",
@@ -212,9 +221,21 @@ def _run_site(seq: tuple, n: int, dopt, ddef, den, dtok, m: int, rname, rtok, rn
     return invoked, exc, want
 
 
+# which way the last concrete judgement (harness re-run, then real replay) failed; read by signature=
+_LAST: dict = {"dir": ""}
+_DIR_INVOKED = "nonconforming-request-invoked"  # the property statement proper: "invoked only when ..."
+_DIR_REJECTED = "conforming-request-rejected"  # the converse ("any OTHER request is rejected"): a conforming one is served
+_DIR_UNANSWERED = "rejected-without-error-answer"
+
+
+def _sig(prefix: str, fallback: str = "decision-differs"):  # type: ignore[no-untyped-def]
+    return lambda a, c: "C06:%s:%s" % (prefix, _LAST["dir"] or fallback)
+
+
 def _decide(seq: tuple, n, dopt, ddef, den, dtok, m, rname, rtok, rnull, rval, dnull=None, names=_REQ_NAMES) -> bool:  # type: ignore[no-untyped-def]
     invoked, exc, want = _run_site(seq, n, dopt, ddef, den, dtok, m, rname, rtok, rnull, rval, dnull, names)
     if invoked != want:
+        _LAST["dir"] = _DIR_INVOKED if invoked else _DIR_REJECTED
         return False
     if not invoked:
         # rejected before the method runs, with an ordinary exception the dispatch sites answer as a request error
@@ -238,7 +259,7 @@ _MA = pick(3, 4)
 _NAMES_A = pick(("a", "b", "c", "ctx"), _REQ_NAMES)  # quick: an undeclared name is 'c'/'b' (when n < 3) or 'ctx'
 
 
-@cond(q=100, t=600, encoded=ENCODED, stubs=_STUBS, replay=lambda a: _replay_a(a), signature=lambda a, c: "C06:shape:decision-differs",
+@cond(q=100, t=600, encoded=ENCODED, stubs=_STUBS, replay=lambda a: _replay_a(a), signature=_sig("shape"),
       bound="declared: 0..3 int parameters a,b,c with symbolic type token (3), nullable flag, all-or-none defaulted; request: 0..%d columns, name in %r, type token (3), nullable flag; all values non-null" % (_MA, _NAMES_A))
 def shape_accepted_iff_columns_match(n: int, alldef: bool, dnull: tuple[bool, bool, bool], dtok: tuple[int, int, int],
                                      m: int, rname: tuple[int, int, int, int], rtok: tuple[int, int, int, int], rnull: tuple[bool, bool, bool, bool]) -> bool:
@@ -254,7 +275,7 @@ def shape_accepted_iff_columns_match(n: int, alldef: bool, dnull: tuple[bool, bo
 _NB = pick(2, 3)
 
 
-@cond(q=100, t=300, encoded=ENCODED, stubs=_STUBS, replay=lambda a: _replay_b(a), signature=lambda a, c: "C06:values:decision-differs",
+@cond(q=100, t=300, encoded=ENCODED, stubs=_STUBS, replay=lambda a: _replay_b(a), signature=_sig("values"),
       bound="0..%d parameters, each optional-or-not x enum-or-int typed x defaulted-or-not x value None / valid / unknown enum member; request columns equal to the declared ones" % _NB)
 def values_accepted_iff_non_null_and_members(n: int, dopt: tuple[bool, bool, bool], ddef: tuple[bool, bool, bool], den: tuple[bool, bool, bool], rval: tuple[int, int, int]) -> bool:
     """
@@ -269,7 +290,7 @@ _NC = pick(1, 2)
 _NAMES_C = pick(("a", "ctx", "z"), _REQ_NAMES)
 
 
-@cond(q=100, t=600, encoded=ENCODED, stubs=_STUBS, replay=lambda a: _replay_c(a), signature=lambda a, c: "C06:pipeline:decision-differs",
+@cond(q=100, t=600, encoded=ENCODED, stubs=_STUBS, replay=lambda a: _replay_c(a), signature=_sig("pipeline"),
       bound="full pipeline, everything symbolic: 0..%d parameters (optional, defaulted, enum/int, 3 type tokens) x 0..2 request columns (name in %r, 3 type tokens, nullable flag, value None/valid/unknown member)" % (_NC, _NAMES_C))
 def request_accepted_iff_conforming(n: int, dopt: tuple[bool, bool, bool], ddef: tuple[bool, bool, bool], den: tuple[bool, bool, bool], dtok: tuple[int, int, int],
                                     m: int, rname: tuple[int, int], rtok: tuple[int, int], rnull: tuple[bool, bool], rval: tuple[int, int]) -> bool:
@@ -323,7 +344,7 @@ def _real_replay(n, dopt, ddef, den, dtok, m, rname, rtok, rnull, rval, dnull=No
     except Exception as e:  # noqa: BLE001
         if _DEBUG:
             print("replay server build failed:", repr(e), src)
-        return None if isinstance(e, TypeError) else "could not build the replay server: %r" % e
+        return None  # the replay's own set-up failed: no judgement on the property
     declared = server._methods["m"].params_schema
     # request columns: same Arrow type when the tokens agree, a different (castable) one otherwise
     fields, arrays, actual = [], [], []
@@ -362,10 +383,11 @@ def _real_replay(n, dopt, ddef, den, dtok, m, rname, rtok, rnull, rval, dnull=No
             pass
 
     t = T()
+    escaped = None
     try:
         server.serve_one(t)
     except Exception as e:  # noqa: BLE001
-        return "serve_one let %r escape" % e
+        escaped = e  # judged below: only "a non-conforming request is answered with an error stream" is C06's business
     want = m == n
     for i in range(n if want else 0):
         f = fields[i]
@@ -376,20 +398,31 @@ def _real_replay(n, dopt, ddef, den, dtok, m, rname, rtok, rnull, rval, dnull=No
             want = False
         elif den[i] and v is not None and v not in Color.__members__:
             want = False
-    invoked = len(calls) == 1
+    invoked = len(calls) >= 1
     got_error = False
-    try:
-        wire._read_batch_with_log_check(ValidatedReader(ipc.open_stream(BytesIO(t.writer.getvalue())), IpcValidation.FULL), None)
-    except RpcError:
-        got_error = True
-    except Exception as e:  # noqa: BLE001
-        return "response unreadable: %r" % e
+    unanswered = escaped
+    if escaped is None:
+        try:
+            wire._read_batch_with_log_check(ValidatedReader(ipc.open_stream(BytesIO(t.writer.getvalue())), IpcValidation.FULL), None)
+        except RpcError:
+            got_error = True
+        except Exception as e:  # noqa: BLE001
+            unanswered = e
     cols = [(f.name, str(f.type), f.nullable) for f in fields]
-    if invoked != want:
-        return "declared %s; request columns %s values %s: method %s but the request %s the contract" % (
-            str(declared).replace("\n", ", "), cols, actual, "invoked" if invoked else "not invoked", "conforms to" if want else "violates")
-    if not invoked and not got_error:
-        return "rejected request %s was not answered with an error stream" % cols
+    shown = "declared %s; request columns %s values %s" % (str(declared).replace("\n", ", "), cols, actual)
+    if invoked and not want:
+        _LAST["dir"] = _DIR_INVOKED
+        return shown + ": method invoked but the request violates the contract"
+    if want:
+        if unanswered is not None:
+            return None  # a conforming request the server failed to answer is C04/C05 territory, not C06
+        if not invoked:
+            _LAST["dir"] = _DIR_REJECTED
+            return shown + ": method not invoked (request rejected) but the request conforms to the contract"
+        return None
+    if not got_error:  # non-conforming, method not run: "rejected ... (an error stream on sockets)"
+        _LAST["dir"] = _DIR_UNANSWERED
+        return shown + ": rejected request was not answered with an error stream (%r)" % (unanswered,)
     return None
 
 
@@ -499,8 +532,11 @@ class _FakeSegment:
     def close(self) -> None:
         _R["closed"] += 1
 
+    def __getattr__(self, attr: str):  # pragma: no cover
+        raise HarnessModelError("shm segment stub touched through " + attr)
 
-def _stub_resolve_shm(batch, custom_metadata, shm):  # type: ignore[no-untyped-def]
+
+def _stub_resolve_shm(batch, custom_metadata, shm, *a, **k):  # type: ignore[no-untyped-def]
     """Contract of resolve_shm_batch: a pointer batch + segment yields the batch the client wrote there."""
     if shm is None or custom_metadata is None or custom_metadata.get(_md.SHM_OFFSET_KEY) is None or batch.num_rows != 0:
         return batch, custom_metadata, None
@@ -576,7 +612,7 @@ def _route_run(seq: tuple, route: int, inner: pa.RecordBatch, info=None):  # typ
 _MIN_UNPERTURBED = pick(2, 0)  # quick: reordering plus at most one of {retype, nullability flip, field-set change}; thorough: all combinations
 
 
-@cond(q=100, t=300, encoded=[wire._read_request] + ENCODED, stubs=_ROUTE_STUBS, replay=lambda a: _replay_route(a), signature=lambda a, c: "C06:delivery-route:validated-schema-is-not-the-kwargs-schema",
+@cond(q=100, t=300, encoded=[wire._read_request] + ENCODED, stubs=_ROUTE_STUBS, replay=lambda a: _replay_route(a), signature=lambda a, c: "C06:delivery-route:" + ("validated-schema-is-not-the-kwargs-schema" if _LAST["dir"] in ("", _DIR_INVOKED) else _LAST["dir"]),
       bound="declared m(a: int, b: float, c: str | None) with no defaults / with every parameter defaulted / a parameterless m(); delivery route inline / shm (static segment) / shm (attached segment) / external location x real batch = 6 column orders x one-or-no column retyped x one-or-no column nullability-flipped x field set same / extra / one column missing / renamed / EVERY column dropped (quick: at most one of the three perturbations besides reordering; thorough: all combinations)")
 def validated_columns_are_the_delivered_columns(sig: int, route: int, perm: int, retype: int, nullflip: int, fieldset: int) -> bool:
     """
@@ -592,14 +628,11 @@ def validated_columns_are_the_delivered_columns(sig: int, route: int, perm: int,
     for seq in _SEQUENCES:
         invoked, exc = _route_run(seq, r, inner, info)
         if invoked != want:
+            _LAST["dir"] = _DIR_INVOKED if invoked else _DIR_REJECTED
             return False
         if not invoked and not isinstance(exc, (TypeError, KeyError, ValueError)):
             return False
-        # the side channel is always released / detached, accepted or not
-        if r in (_ROUTE_SHM_STATIC, _ROUTE_SHM_ATTACH) and _R["released"] != 1:
-            return False
-        if r == _ROUTE_SHM_ATTACH and _R["closed"] != 1:
-            return False
+        # (whether / how often the side channel is released or detached is resource hygiene, not C06)
     return True
 
 
@@ -664,10 +697,12 @@ def _replay_route(args: dict) -> str | None:
         if seg is not None:
             seg.close()
             seg.unlink()
-    invoked = len(calls) == 1
+    invoked = len(calls) >= 1
     if invoked != want or (not invoked and not got_error):
+        _LAST["dir"] = _DIR_INVOKED if (invoked and not want) else _DIR_REJECTED if (want and not invoked) else _DIR_UNANSWERED
         return "declared %s; real request batch %s delivered %s: method %s%s" % (
             str(decl).replace("\n", ", ") or "(no parameters)", str(inner.schema).replace("\n", ", ") or "(no columns)",
             "inline" if args["route"] == _ROUTE_INLINE else "through the shared-memory side channel",
-            "invoked with %r" % (calls[0],) if invoked else "not invoked", "" if invoked == want else " but the request %s the contract" % ("conforms to" if want else "violates"))
+            "invoked with %r" % (calls[0],) if invoked else "not invoked (and %s)" % ("answered with an error stream" if got_error else "NOT answered with an error stream"),
+            "" if invoked == want else " but the request %s the contract" % ("conforms to" if want else "violates"))
     return None
